@@ -15,7 +15,7 @@ RULE = ("Greenlets: every chain main <- G0 <- G1 <- G2 (length 1..3) with every 
         "one, a dead one) is extracted: suspended -> exactly the f_back walk from gr_frame; current -> exactly its own portion of "
         "the running stack (f_back walk from the asker to the greenlet boundary); unstarted/dead -> no frames; running in another "
         "thread -> an error and no frames. This covers askers {outside, self, child, grandchild, parent}. Greenback: async/sync "
-        "alternation depth 0..3 under trio with the extraction taken from outside (callback while the task is blocked) and from "
+        "alternation depth 0..3 under trio (await_ given coroutines, and given non-coroutine awaitables) with the extraction taken from outside (callback while the task is blocked) and from "
         "inside (innermost sync or async function): the user functions must appear exactly once each, in call order, and no "
         "visible frame may belong to await_, _greenback_shim or trampoline. evaluations = extractions checked; "
         "distinct_nontrivial = distinct (chain, depths, ask point, target) / (alternation depth, leaf kind, vantage).")
@@ -161,7 +161,7 @@ def other_thread():
 
 
 # ------------------------------------------------------------------ greenback
-def run_greenback(k, leaf, vantage):
+def run_greenback(k, leaf, vantage, wrap=False):
     """k alternations: a0 -> s0 -> a1 -> s1 ... ; leaf in {'async','sync'} is the kind of the innermost function;
     vantage in {'outside','inside'}."""
     import trio
@@ -191,12 +191,20 @@ def run_greenback(k, leaf, vantage):
         trio.lowlevel.current_trio_token().run_sync_soon(report_back)
         await trio.lowlevel.wait_task_rescheduled(no_abort)
 
-    ns = {"greenback": greenback}
+    class Deferred(object):
+        """a non-coroutine awaitable: greenback drives adapt_awaitable(aw), not aw itself"""
+
+        def __init__(s, c):
+            s.c = c
+
+        def __await__(s):
+            return s.c.__await__()
+    ns = {"greenback": greenback, "W": (Deferred if wrap else (lambda c: c))}
     lines = []
     # generate functions a0, s0, a1, s1, ... with unique code objects
     for i in range(k):
         lines.append("async def a%d(ctx):\n    return s%d(ctx)\n" % (i, i))
-        lines.append("def s%d(ctx):\n    return greenback.await_(a%d(ctx))\n" % (i, i + 1))
+        lines.append("def s%d(ctx):\n    return greenback.await_(W(a%d(ctx)))\n" % (i, i + 1))
     if leaf == "async":
         if vantage == "outside":
             lines.append("async def a%d(ctx):\n    await ctx['park']()\n" % k)
@@ -209,7 +217,7 @@ def run_greenback(k, leaf, vantage):
     else:
         lines.append("async def a%d(ctx):\n    return s%d(ctx)\n" % (k, k))
         if vantage == "outside":
-            lines.append("def s%d(ctx):\n    return greenback.await_(ctx['park']())\n" % k)
+            lines.append("def s%d(ctx):\n    return greenback.await_(W(ctx['park']()))\n" % k)
         else:
             lines.append("def s%d(ctx):\n    ctx['inside']()\n" % k)
         names = []
@@ -254,7 +262,8 @@ def greenback_cases(maxk):
     for k in range(0, maxk + 1):
         for leaf in ("async", "sync"):
             for vantage in ("outside", "inside"):
-                yield {"leg": "greenback", "k": k, "leaf": leaf, "vantage": vantage}
+                for wrap in (False, True):
+                    yield {"leg": "greenback", "k": k, "leaf": leaf, "vantage": vantage, "wrap": wrap}
 
 
 def do_case(case):
@@ -262,7 +271,7 @@ def do_case(case):
         return run_chain(case["depths"])
     if case["leg"] == "other_thread":
         return other_thread()
-    return run_greenback(case["k"], case["leaf"], case["vantage"])
+    return run_greenback(case["k"], case["leaf"], case["vantage"], case.get("wrap", False))
 
 
 def run(ctx):
